@@ -46,6 +46,9 @@ K_REBOUND = ("variable re-bound at a later node on the way to the exit (strong u
 K_BRANCH_ATTR = ("instance attribute assigned only in a branch that did not run shadows the class attribute on every path")
 K_SELFCONFLICT = "self-conflicting source set: two bindings of one variable are required together"
 
+K_CLOSURE = ("narrowed parameter read through a closure: a nested function/lambda reads a parameter of the enclosing "
+             "function that is tested by isinstance/is None on the path; the closure sees only the narrowed binding")
+
 CAPTURE = {}
 _installed = False
 
@@ -81,7 +84,7 @@ def walk_ids(sh, path, out):
     walk_ids(b, path + (f"val{i}",), out)
 
 
-def alias_signature(trace, adm, consts, parent_shape, leaf_shape):
+def alias_signature(trace, adm, consts, parent_shape, leaf_shape, min_paths=2):
   """True iff the container holding the unadmitted leaf is also reachable by another
   path from a module global whose declared type admits that container's content."""
   if not parent_shape or "id" not in parent_shape:
@@ -90,7 +93,7 @@ def alias_signature(trace, adm, consts, parent_shape, leaf_shape):
   for name, sh in trace["globals"].items():
     walk_ids(sh, (name,), ids)
   paths = ids.get(parent_shape["id"], [])
-  if len(paths) < 2:
+  if len(paths) < min_paths:
     return None
   # some top-level alias whose declared type admits the whole aliased object
   for p in paths:
@@ -455,3 +458,45 @@ def inplace_signature(tree, name, executed_lines):
   if isinstance(last[1], ast.AugAssign):
     return {"augassign_line": last[0]}
   return None
+
+
+def closure_signature(tree, func_names):
+  """Some function among `func_names` (or any, if empty) contains a nested def/lambda reading a
+  parameter of the enclosing function that the enclosing function tests by isinstance / is None."""
+  import ast
+  for fn in ast.walk(tree):
+    if not isinstance(fn, ast.FunctionDef):
+      continue
+    if func_names and fn.name not in func_names:
+      continue
+    params = {a.arg for a in fn.args.args + fn.args.kwonlyargs + fn.args.posonlyargs}
+    tested = set()
+    for n in ast.walk(fn):
+      if isinstance(n, ast.Call) and isinstance(n.func, ast.Name) and n.func.id == "isinstance" and n.args \
+          and isinstance(n.args[0], ast.Name):
+        tested.add(n.args[0].id)
+      if isinstance(n, ast.Compare) and isinstance(n.left, ast.Name) and any(
+          isinstance(o, (ast.Is, ast.IsNot)) for o in n.ops):
+        tested.add(n.left.id)
+    for n in ast.walk(fn):
+      if n is fn or not isinstance(n, (ast.Lambda, ast.FunctionDef)):
+        continue
+      inner = {a.arg for a in n.args.args}
+      body = n.body if isinstance(n, ast.Lambda) else n
+      for m in ast.walk(body):
+        if isinstance(m, ast.Name) and m.id in (params & tested) and m.id not in inner:
+          return {"function": fn.name, "parameter": m.id}
+  return None
+
+
+def called_functions(tree, name):
+  """Names of module-level functions called in the (last) assignment to `name`."""
+  import ast
+  out = set()
+  for st in tree.body:
+    targets = st.targets if isinstance(st, ast.Assign) else []
+    if any(isinstance(t, ast.Name) and t.id == name for t in targets):
+      for c in ast.walk(st.value):
+        if isinstance(c, ast.Call) and isinstance(c.func, ast.Name):
+          out.add(c.func.id)
+  return out
